@@ -538,6 +538,11 @@ func genMut(t *rapid.T, s *sxgkit.Spec) (Mut, string) {
 		}
 	case cls == "hdr-add" || cls == "reqhdr-add":
 		m.Name = gen.HeaderName(t, "newname")
+		if rapid.IntRange(0, 3).Draw(t, "pseudo") == 0 {
+			// names in pseudo-header style: the decoders give meaning to :status / :method / :url only
+			// and hand every other ":name" to the caller as an ordinary field, so it must be signed
+			m.Name = rapid.SampledFrom([]string{":x-injected", ":authority", ":path", ":scheme", ":status", ":method", ":url", ":"}).Draw(t, "pseudoname")
+		}
 		m.Value = rapid.SampledFrom([]string{"", "x", "a,b"}).Draw(t, "newval")
 	case cls == "hdr-remove" || cls == "hdr-case":
 		m.Pos = rapid.IntRange(0, 10).Draw(t, "pos")
